@@ -391,3 +391,87 @@ def inplace_history(ctx, specs, n, ops):
     for op in ops:
         if op != "identity":
             ctx.require("inplace_op:" + op, "(in-place history monitor never evaluated)")
+
+
+# ---------------------------------------------------------------------------------------------------------------------
+# the same element / vector handed over in a structurally sparse container (ca.SX(n,1) filled entry by entry, ca.sparsify of a
+# DM with exact zeros, a Jacobian column): a parameter vector is its dense content, whatever the container stores
+def structured_params(spec, rng):
+    from ..groups import SO3Spec, SE3Spec, SE23Spec, SE2Spec, SO2Spec, RnSpec, EulerSeqSpec
+    ang = rng.uniform(0.2, 2.8, 6) * rng.choice([-1.0, 1.0], 6)
+    ax = np.eye(3)[[0, 1, 2, 0, 1, 2]]
+    if isinstance(spec, EulerSeqSpec) or (isinstance(spec, SO3Spec) and spec.kind == "euler"):
+        a, b, c = ang[0], ang[1] * 0.4, ang[2]
+        return np.array([[a, 0, 0], [0, b, 0], [0, 0, c], [a, 0, c], [0, b, c], [a, b, 0]])
+    if isinstance(spec, SO3Spec):
+        if spec.kind == "quat":
+            return O.axang_to_quat(ax, ang)
+        if spec.kind == "mrp":
+            return ax * np.tan(ang / 4)[:, None]
+        return O.dcm_param(O.rodrigues(ax * ang[:, None]))
+    if isinstance(spec, (SE3Spec, SE23Spec)):
+        R = structured_params(spec.so3, rng)
+        nt = spec.n - spec.so3.n
+        T = rng.normal(size=(len(R), nt))
+        for k in range(len(R)):
+            T[k, rng.choice(nt, size=int(rng.integers(1, nt)), replace=False)] = 0.0
+        return np.concatenate([T, R], axis=1)
+    if isinstance(spec, SE2Spec):
+        return np.array([[0.7, 0.0, 1.1], [0.0, -0.4, -2.0], [0.3, 0.9, 0.0], [0.0, 0.0, 0.5]])
+    if isinstance(spec, SO2Spec):
+        return np.array([[0.0], [1.3]])
+    if isinstance(spec, RnSpec):
+        P = rng.normal(size=(4, spec.n))
+        for k in range(4):
+            P[k, rng.choice(spec.n, size=int(rng.integers(1, spec.n + 1)), replace=False)] = 0.0
+        return P
+    return np.zeros((0, spec.n))
+
+
+def sparse_param_form(ctx, specs, ops):
+    from .. import contracts as K
+
+    rng = ctx.rng("sparse_form")
+    for spec in specs:
+        try:
+            G = spec.lib()
+        except Exception:
+            continue
+        P = structured_params(spec, rng)
+        if not len(P):
+            continue
+        other_p = spec.rand(rng, 1)[0]
+        Xa = spec.alg_rand(rng, 6, hi=2.0, thi=2.0)
+        for k in range(len(Xa)):
+            Xa[k, rng.choice(spec.na, size=int(rng.integers(1, spec.na + 1)), replace=False)] = 0.0
+        for op in ops:
+            if op == "identity":
+                continue
+            is_group = op in GROUP_OPS
+            fn = GROUP_OPS[op] if is_group else ALGEBRA_OPS[op]
+            site = "%s:%s" % (op, spec.name)
+            for p in (P if is_group else Xa):
+                try:
+                    mk = (lambda v: G.elem(v)) if is_group else (lambda v: G.algebra.elem(v))
+                    other = G.elem(ca.DM(other_p)) if is_group else G.algebra.elem(ca.DM(Xa[0]))
+                    dense = _val(K, fn(G, mk(ca.DM(p)), other))
+                    sp1 = _val(K, fn(G, mk(ca.sparsify(ca.DM(p))), other))
+                    sx = ca.SX(len(p), 1)
+                    for i, v in enumerate(p):
+                        if v != 0:
+                            sx[i] = float(v)
+                    sp2 = _val(K, fn(G, mk(sx), other))
+                    ctx.tally("sparse_container_same_value:" + site)
+                    ctx.tally("sparse_op:" + op)
+                    ok = dense is not None and all(r is not None and r.shape == dense.shape and np.allclose(r, dense, rtol=1e-13, atol=1e-300, equal_nan=True) for r in (sp1, sp2))
+                    if not ok:
+                        ctx.violation("sparse_container_same_value", site, {"param": p, "dense": dense, "sparsified_DM": sp1, "SX_filled_entry_by_entry": sp2})
+                        break
+                except (NotImplementedError, AttributeError):
+                    break
+                except Exception as e:
+                    ctx.violation("sparse_container_same_value", site, {"param": p, "exception": "%s: %s" % (type(e).__name__, str(e)[:200])})
+                    break
+    for op in ops:
+        if op != "identity":
+            ctx.require("sparse_op:" + op, "(sparse-container monitor never evaluated)")
